@@ -259,7 +259,7 @@ def check_realp(ctx, it, f_rp):
 # =========================================================================================== D4
 PURE_NP = {"zeros", "empty", "zeros_like", "empty_like", "hstack", "vstack", "concatenate", "column_stack", "array",
            "asarray", "copy", "eye", "negative", "transpose", "reshape", "stack", "arange", "block", "split", "hsplit", "vsplit",
-           "take", "swapaxes", "moveaxis", "ascontiguousarray", "where"}
+           "take", "swapaxes", "moveaxis", "ascontiguousarray", "where", "copyto", "positive"}
 PURE_METHODS = {"copy", "astype", "reshape", "transpose"}
 PURE_BUILTINS = {"int", "float", "len", "tuple", "list", "range", "min", "max", "slice", "zip", "enumerate", "reversed", "bool"}
 
@@ -362,7 +362,11 @@ class Relayout:
             for s in body[:-1]:
                 if isinstance(s, ast.Expr) and isinstance(s.value, ast.Constant):
                     continue
-                simple = isinstance(s, (ast.Assign, ast.AnnAssign)) and _is_movement(s, self.np_names) \
+                # (also bare calls that move data into an `out=` target: np.negative(src, out=dst[...]), np.copyto(dst, src))
+                is_out_call = isinstance(s, ast.Expr) and isinstance(s.value, ast.Call) and (
+                    any(k.arg == "out" for k in s.value.keywords)
+                    or (isinstance(s.value.func, ast.Attribute) and s.value.func.attr == "copyto"))
+                simple = (isinstance(s, (ast.Assign, ast.AnnAssign)) or is_out_call) and _is_movement(s, self.np_names) \
                     and not (_loads(s) & self.poisoned)
                 if simple:
                     it.exec(s, env)
